@@ -635,6 +635,61 @@ def quotedOk (tok : Str) : Bool :=
     (q = '"' || q = '\'') && rest.getLast? = some q && rest.length ≥ 1 && quotedBodyOk q false rest.dropLast
   | [] => false
 
+/-! ## Sass-free alphabet (`C05_sass_free`) -/
+
+/-- All opaque texts of a selector. -/
+def simpleTexts : List Simple → List Str
+  | [] => []
+  | .text s :: r => s :: simpleTexts r
+  | .placeholder _ :: r => simpleTexts r
+
+def compTexts : List Component → List Str
+  | [] => []
+  | .comb c :: r => [c] :: compTexts r
+  | .compound ss :: r => simpleTexts ss ++ compTexts r
+
+def selTexts (sel : Selector) : List Str := (sel.map (fun cx => compTexts cx.comps)).flatten
+
+/-- The characters of Sass-only syntax: `&` (parent selector), `$` (variable), `%` (placeholder),
+    `#` (interpolation `#{`). -/
+def sassChar (c : Char) : Bool := c = '&' || c = '$' || c = '%' || c = '#'
+
+/-- No Sass character in a piece of text. -/
+def plainText (x : Str) : Bool := x.all (fun c => !sassChar c)
+
+def Atom.leafFree (c : Char) : Atom → Bool
+  | .raw s => !s.contains c
+  | .quoted s => !s.contains c
+
+def Value.leafFree (c : Char) : Value → Bool
+  | .atom a => a.leafFree c
+  | .list _ items => items.all (Atom.leafFree c)
+
+def optFree (c : Char) : Option Str → Bool
+  | some m => !m.contains c
+  | none => true
+
+mutual
+/-- No opaque leaf of the statement contains the character `c` (selector texts and combinators,
+    property names, unquoted AND quoted atoms, rendered queries, at-rule names and parameters,
+    keyframe selectors, import url/modifiers, rendered comments). -/
+def Stmt.leafFree (c : Char) : Stmt → Bool
+  | .rule _ sel body => (selTexts sel).all (fun s => !s.contains c) && body.leafFree c
+  | .decl name _ v => !name.contains c && v.leafFree c
+  | .media _ qs body => (qs.map queryOut).all (fun s => !s.contains c) && body.leafFree c
+  | .supports _ params body => !params.contains c && body.leafFree c
+  | .unknown _ name params _ body => !name.contains c && !params.contains c && body.leafFree c
+  | .kf sels body => sels.all (fun s => !s.contains c) && body.leafFree c
+  | .comment text col => !(commentOut text col).contains c
+  | .import url mods => !url.contains c && optFree c mods
+def Stmts.leafFree (c : Char) : Stmts → Bool
+  | .nil => true
+  | .cons s ss => s.leafFree c && ss.leafFree c
+end
+
+def treeLeafFree (c : Char) (t : List Stmt) : Bool := t.all (Stmt.leafFree c)
+
+
 /-! ## CssRead for the declaration-only subset
     (`C06_style_equiv_model_partial`; also run by the driver on grass's own output) -/
 
@@ -690,9 +745,10 @@ def rulesOf (t : List SRule) : List (Str × List (Str × Str)) :=
 
 /-! ## CssRead — reader for the whole serialised subset
     (`C05_read_roundtrip`, `C06_style_equiv_model`; also run by the driver on grass's own output).
-    The canonical text of a prelude / item is the text with spaces and newlines OUTSIDE strings,
-    comments and escapes removed (`sq`): coarse — it does not distinguish `a b` from `ab` — but it is
-    what makes the two styles comparable without knowing the grammar of the opaque texts. -/
+    The canonical text of a prelude / item (`nm`) normalises whitespace OUTSIDE strings, comments and
+    escapes: a run of spaces/newlines becomes one space, and disappears at the ends and next to the
+    punctuation after/around which the serializer's whitespace is optional (`, > + ~` in preludes,
+    `, / :` in items).  `a b` and `ab` stay different. -/
 
 /-- Mode transitions of the scanner without the depth (total). -/
 def mstepN (c : Char) : Mode :=
@@ -733,12 +789,54 @@ def flatFrom : Mode → Str → Bool
 
 def flat (x : Str) : Bool := flatFrom .normal x
 
-/-- Canonical text of a segment: spaces and newlines outside strings/comments/escapes dropped. -/
+/-- Auxiliary squeeze (used by the flatness lemmas only): spaces and newlines outside
+    strings/comments/escapes dropped. -/
 def sqFrom : Mode → Str → Str
   | _, [] => []
   | m, c :: cs => if m.isTop && isWsC c then sqFrom (mstep m c) cs else c :: sqFrom (mstep m c) cs
 
 def sq (x : Str) : Str := sqFrom .normal x
+
+/-! The canonical text proper: whitespace normalised, not deleted. -/
+
+inductive Kind | start | punct | word
+  deriving DecidableEq, Repr
+
+structure NS where
+  mode : Mode
+  k : Kind
+  pend : Bool
+  deriving DecidableEq, Repr
+
+/-- One character of the normaliser.  Outside strings/comments/escapes: whitespace is never copied,
+    it only marks a pending separator after a word; a punctuation character (`P`) cancels a pending
+    separator and whitespace after it is ignored; any other character is preceded by ONE space when a
+    separator is pending.  Inside strings/comments/escapes everything is copied. -/
+def nstep (P : Char → Bool) (s : NS) (c : Char) : Str × NS :=
+  if s.mode.isTop then
+    if isWsC c then ([], ⟨mstep s.mode c, s.k, s.pend || s.k == .word⟩)
+    else if P c then ([c], ⟨mstep s.mode c, .punct, false⟩)
+    else ((if s.pend then [' ', c] else [c]), ⟨mstep s.mode c, .word, false⟩)
+  else ([c], ⟨mstep s.mode c, .word, false⟩)
+
+def nrun (P : Char → Bool) : NS → Str → Str × NS
+  | s, [] => ([], s)
+  | s, c :: cs =>
+    let r := nstep P s c
+    let r2 := nrun P r.2 cs
+    (r.1 ++ r2.1, r2.2)
+
+def NS.init : NS := ⟨.normal, .start, false⟩
+
+/-- Canonical text of a prelude / item: whitespace runs outside strings and comments become one
+    space, and disappear at the ends and next to the punctuation `P`. -/
+def nm (P : Char → Bool) (x : Str) : Str := (nrun P NS.init x).1
+
+/-- Optional-whitespace punctuation of preludes (selectors, at-rule parameters). -/
+def Ppre (c : Char) : Bool := c = ',' || c = '>' || c = '+' || c = '~'
+/-- … and of items (declarations, body-less at-rules). -/
+def Pitem (c : Char) : Bool := c = ',' || c = '/' || c = ':'
+
 
 mutual
 inductive RNode
@@ -755,15 +853,15 @@ inductive Delim | opn | cls | semi | eof
 
 def delimOf (c : Char) : Delim := if c = '{' then .opn else if c = '}' then .cls else .semi
 
-/-- One segment: canonical text up to the next `{ } ;` outside strings/comments, the delimiter,
-    and the text after it. -/
+/-- One segment: the RAW text up to the next `{ } ;` outside strings/comments, the delimiter, and
+    the text after it. -/
 def scanSeg : Mode → Str → Str × Delim × Str
   | _, [] => ([], .eof, [])
   | m, c :: cs =>
     if m.isTop && structural c then ([], delimOf c, cs)
     else
       let r := scanSeg (mstep m c) cs
-      (if m.isTop && isWsC c then r.1 else c :: r.1, r.2.1, r.2.2)
+      (c :: r.1, r.2.1, r.2.2)
 
 def skipWs : Str → Str
   | [] => []
@@ -799,12 +897,12 @@ def readNodes : Nat → Bool → Str → Option (RNodes × Str)
       | none => none
     else
       match scanSeg .normal t with
-      | (seg, .semi, rest) => (readNodes f top rest).map (fun r => (consItem seg r.1, r.2))
-      | (seg, .cls, rest) => if top then none else some (consItem seg .nil, rest)
-      | (seg, .eof, _) => if top then some (consItem seg .nil, []) else none
+      | (seg, .semi, rest) => (readNodes f top rest).map (fun r => (consItem (nm Pitem seg) r.1, r.2))
+      | (seg, .cls, rest) => if top then none else some (consItem (nm Pitem seg) .nil, rest)
+      | (seg, .eof, _) => if top then some (consItem (nm Pitem seg) .nil, []) else none
       | (seg, .opn, rest) =>
         match readNodes f false rest with
-        | some (kids, rest') => (readNodes f top rest').map (fun r => (.cons (.block seg kids) r.1, r.2))
+        | some (kids, rest') => (readNodes f top rest').map (fun r => (.cons (.block (nm Ppre seg) kids) r.1, r.2))
         | none => none
 
 /-- Drop a leading BOM or `@charset "UTF-8";` line. -/
@@ -841,22 +939,22 @@ mutual
 def canonStmt (st : Style) : Stmt → Option RNode
   | .rule ge sel body =>
     if (Stmt.rule ge sel body).isInvisible then none
-    else some (.block (sq (rulePrelude st sel)) (canonKids st body))
-  | .decl name custom v => if v.isBlank then none else some (.item (sq (declText st name custom v)))
+    else some (.block (nm Ppre (rulePrelude st sel)) (canonKids st body))
+  | .decl name custom v => if v.isBlank then none else some (.item (nm Pitem (declText st name custom v)))
   | .media ge qs body =>
     if (Stmt.media ge qs body).isInvisible then none
-    else some (.block (sq (mediaPrelude st qs)) (canonKids st body))
+    else some (.block (nm Ppre (mediaPrelude st qs)) (canonKids st body))
   | .supports ge params body =>
     if (Stmt.supports ge params body).isInvisible then none
-    else some (.block (sq (supportsPrelude params)) (canonKids st body))
+    else some (.block (nm Ppre (supportsPrelude params)) (canonKids st body))
   | .unknown _ name params hasBody body =>
-    if !hasBody then some (.item (sq (unknownPrelude name params)))
-    else some (.block (sq (unknownPrelude name params)) (if body.allInvisible then .nil else canonKids st body))
+    if !hasBody then some (.item (nm Pitem (unknownPrelude name params)))
+    else some (.block (nm Ppre (unknownPrelude name params)) (if body.allInvisible then .nil else canonKids st body))
   | .kf sels body =>
     if (Stmt.kf sels body).isInvisible then none
-    else some (.block (sq (kfPrelude sels)) (canonKids st body))
+    else some (.block (nm Ppre (kfPrelude sels)) (canonKids st body))
   | .comment text col => if isLoud (commentOut text col) then some (.comment (commentOut text col)) else none
-  | .import url mods => some (.item (sq (importText url mods)))
+  | .import url mods => some (.item (nm Pitem (importText url mods)))
 def canonKids (st : Style) : Stmts → RNodes
   | .nil => .nil
   | .cons s ss => consOpt (canonStmt st s) (canonKids st ss)
@@ -903,8 +1001,16 @@ def treeReadable (st : Style) (t : List Stmt) : Bool := t.all (Stmt.readable st)
 
 /-! ### style-free guard of `C06_style_equiv_model` -/
 
+def combOk (c : Char) : Bool := c = '>' || c = '+' || c = '~'
+
+def compOk : Component → Bool
+  | .comb c => combOk c
+  | .compound ss => flat (compoundOut ss)
+
+/-- selector guard: combinators are `>` `+` `~`, compounds are flat, the printed selector starts
+    with a non-blank character other than `/` -/
 def selG (sel : Selector) : Bool :=
-  (sel.filter (fun c => !c.isInvisible)).all (fun cx => cx.comps.all (fun c => flat c.out)) &&
+  (sel.filter (fun c => !c.isInvisible)).all (fun cx => cx.comps.all compOk) &&
   headOk (selectorOut .expanded sel) && headOk (selectorOut .compressed sel)
 
 def headNotStar (x : Str) : Bool :=
@@ -942,6 +1048,58 @@ def Stmts.g : Stmts → Bool
 end
 
 def treeG (t : List Stmt) : Bool := t.all Stmt.g
+
+
+/-! ### embedding a read tree back into the statement tree (`C05_fixed_point_model`) -/
+
+/-- Split at the first `:` (not string-aware; used on declaration items `name:value`). -/
+def splitColon : Str → Option (Str × Str)
+  | [] => none
+  | c :: cs => if c = ':' then some ([], cs) else (splitColon cs).map (fun r => (c :: r.1, r.2))
+
+def isAtText (t : Str) : Bool := t.head? = some '@'
+
+mutual
+def RNode.embed : RNode → Stmt
+  | .block p kids =>
+    if isAtText p then .unknown false (p.drop 1) [] true kids.embed
+    else .rule true [⟨false, [.compound [.text p]]⟩] kids.embed
+  | .item t =>
+    if isAtText t then .unknown false (t.drop 1) [] false .nil
+    else match splitColon t with
+      | some (n, v) => .decl n true (.atom (.raw v))
+      | none => .decl t true (.atom (.raw []))
+  | .comment c => .comment c 0
+def RNodes.embed : RNodes → Stmts
+  | .nil => .nil
+  | .cons n ns => .cons n.embed ns.embed
+end
+
+/-- A canonical text that survives another print → read: flat, already normalised (`nm P`), starts with a
+    non-blank character other than `/`, and has no raw newline. -/
+def textOk (P : Char → Bool) (p : Str) : Bool := hdrOk p && nm P p == p && !p.contains '\n'
+
+mutual
+/-- Guard of `C05_fixed_point_model`: the read tree can be embedded and read again unchanged. -/
+def RNode.embedOk : RNode → Bool
+  | .block p kids =>
+    textOk Ppre p && kids.embedOk && (isAtText p || !kids.embed.allInvisible)
+  | .item t =>
+    textOk Pitem t && (isAtText t ||
+      (match splitColon t with
+       | some (n, v) => !v.isEmpty && hdrOk n
+       | none => false))
+  | .comment c => commentTok c && isLoud c && commentOut c 0 == c
+def RNodes.embedOk : RNodes → Bool
+  | .nil => true
+  | .cons n ns => n.embedOk && ns.embedOk
+end
+
+def RNodes.toList : RNodes → List RNode
+  | .nil => []
+  | .cons n ns => n :: ns.toList
+
+def embedTop (c : RNodes) : List Stmt := c.toList.map RNode.embed
 
 
 /-! ## driver: tree decoding -/
@@ -1183,7 +1341,7 @@ def sassFree (out : Str) : Bool :=
   | none => false
 
 /-- Driver entry.  Requests (after the `ser` token):
-    `print <e|c> <0|1> <tree…>`   → `ok <hex of serialize> <wellFormed> <charsetOk> <treeOk> <sassFree> <treeReadable> <treeG> <bodyHasHeader>`
+    `print <e|c> <0|1> <tree…>`   → `ok <hex of serialize> <wellFormed> <charsetOk> <treeOk> <sassFree> <treeReadable> <treeG> <bodyHasHeader> <embedOk of the canonical tree> <treeLeafFree for & $ % #>`
     `wf <hex>`                     → `ok <0|1>`   P̂ well-formedness of a text
     `charset <0|1> <hex>`          → `ok <0|1>`   P̂ charset rule
     `sassfree <hex>`               → `ok <0|1>`
@@ -1199,7 +1357,9 @@ def handle : List String → String
       let out := serialize st cs t
       "ok " ++ outHex out ++ " " ++ boolStr (wellFormed out) ++ " " ++ boolStr (charsetOk cs out) ++ " " ++
         boolStr (treeOk st t) ++ " " ++ boolStr (sassFree out) ++ " " ++ boolStr (treeReadable st t) ++ " " ++
-        boolStr (treeG t) ++ " " ++ boolStr (hasCharsetOrBom (serialize st false t))
+        boolStr (treeG t) ++ " " ++ boolStr (hasCharsetOrBom (serialize st false t)) ++ " " ++
+        boolStr (canonTop st t).embedOk ++ " " ++
+        String.ofList (['&', '$', '%', '#'].map fun c => if treeLeafFree c t then '1' else '0')
     | _, _, _ => "bad-op"
   | ["wf", h] =>
     match hexStr h with
